@@ -53,18 +53,23 @@ def cases(tier):
     """(chain layout, marker subset, group orders, call sequence kind)"""
     C = []
     cells = ['f1', 'f2', 'f3']
-    layouts = [[('1', 'si', cells, 'so')]]
-    if tier == 'thorough': layouts.append([('1', 'si', ['f1', 'f2'], 'so'), ('2', 'a', ['f3'], 'z')])
+    layouts = [[('1', 'si', cells, 'so')], [('1', 'si', ['f1', 'f2'], 'so'), ('2', 'a', ['f3'], 'z')]]
     for lay in layouts:
         ngaps = sum(len(ch[2]) + 1 for ch in lay)
         for markers in itertools.product([0, 1], repeat=ngaps):
-            if tier == 'quick' and sum(markers) > 2: continue
+            if tier == 'quick' and sum(markers) > (2 if len(lay) == 1 else 1): continue
             for pi_order in (['si', 'ck', 'a', 'b'], ['b', 'a', 'ck', 'si']):
                 for po_order in (['so', 'z', 'y'], ['y', 'so', 'z']):
                     if tier == 'quick' and (pi_order[0] == 'b') != (po_order[0] == 'y'): continue
-                    for seq in ('sa', 'loc', 'loc-nolaunch'):
+                    for seq in ('sa', 'loc', 'loc-nolaunch', 'mixed'):
                         C.append((lay, markers, pi_order, po_order, seq))
     return C
+
+
+def flow(seq, p):
+    """call flow of pattern p: 'sa' (capture only), 'loc' (launch with pulse + capture), 'loc-nolaunch' (launch call without pulse)"""
+    if seq == 'mixed': return 'loc' if p == 0 else 'sa'
+    return seq
 
 
 def build_ir(case, strings):
@@ -89,7 +94,7 @@ def build_ir(case, strings):
             lu[si] = strings[('load', p, si)]
             if p > 0: lu[so] = strings[('unload', p - 1, so)]
         calls.append(Call('load_unload', lu))
-        if seq == 'sa':
+        if flow(seq, p) == 'sa':
             calls.append(Call('sa_capture', {'_pi': strings[('cpi', p)], '_po': strings[('cpo', p)]}))
         else:
             calls.append(Call('x_launch', {'_pi': strings[('lpi', p)], '_po': strings[('lpo', p)]}))
@@ -113,7 +118,7 @@ def default_strings(case, rng):
             s_[clk] = 'P' if pulse else '0'
             return ''.join(s_)
         S[('cpi', p)] = pi(seq != 'sa')
-        S[('lpi', p)] = pi(seq == 'loc')
+        S[('lpi', p)] = pi(flow(seq, p) == 'loc')
         S[('cpo', p)] = ''.join(rng.choice('LHXN') for _ in po_order)
         S[('lpo', p)] = ''.join(rng.choice('LHX') for _ in po_order)
     return S
@@ -172,8 +177,9 @@ def expected_loc(case, S, c, code):
         init = {}
         for name, si, cells, so, m in lay_m:
             for j, cname in enumerate(cells): init[cname] = tests[pos[cname]][p]
-        ipi = {name: code(('lpi', p), j) for j, name in enumerate(pi_order)}
+        fl = flow(seq, p)
         cpi = {name: code(('cpi', p), j) for j, name in enumerate(pi_order)}
+        ipi = {name: code(('lpi', p), j) for j, name in enumerate(pi_order)} if fl != 'sa' else dict(cpi)      # no launch call: inputs as in the capture call
         # next state: 2-valued netlist function of the FINAL components of the init values (unknown -> unknown)
         assign = {}
         unk = False
@@ -185,8 +191,8 @@ def expected_loc(case, S, c, code):
         cap = ref2.Ref2(c, assign, 0, 1).captured()
         for i, n in enumerate(sn):
             if n.name in init:
-                if seq == 'loc': nxt = None if unk else (3 if cap[i] & 1 else 0)
-                else: nxt = init[n.name]                           # no launch pulse: the state does not change
+                if fl == 'loc': nxt = None if unk else (3 if cap[i] & 1 else 0)
+                else: nxt = init[n.name]                           # no launch pulse / no launch call: the state does not change
                 out[pos[n.name]][p] = None if nxt is None else trans(init[n.name], nxt)
         for name in pi_order: out[pos[name]][p] = trans(ipi[name], cpi[name])
         for name in po_order: out[pos[name]][p] = 'PO'
@@ -216,7 +222,7 @@ def run_case(case, S, c, symkey=None, eng=None):
     seq = case[4]
     try:
         # the real functions first: their forks determine the class of the symbolic character on this path
-        t = sf.tests(c) if seq == 'sa' else None
+        t = sf.tests(c)
         r = sf.responses(c)
         l = sf.tests_loc(c) if seq != 'sa' else None
     except (eng_mod.Infeasible, EngineUnknown): raise
@@ -253,7 +259,7 @@ def case_job(job):
     found = []
     if p0: found.append((p0, None))
     else:
-        keys = [k for k in S0 if (k[0] in ('load', 'unload') and k[1] < 2) or (k[0] in ('cpi', 'cpo') and k[1] < 2) or (k[0] in ('lpi', 'lpo') and k[1] < 2 and case[4] != 'sa')]
+        keys = [k for k in S0 if (k[0] in ('load', 'unload') and k[1] < 2) or (k[0] in ('cpi', 'cpo') and k[1] < 2) or (k[0] in ('lpi', 'lpo') and k[1] < 2 and flow(case[4], k[1]) != 'sa')]
         for key in keys:
             for idx in range(len(S0[key])):
                 if S0[key][idx] == 'P': continue                  # clock pulse characters steer the flow: kept concrete
